@@ -388,7 +388,7 @@ pub fn gen(thorough: bool, seed: u64, out: &mut impl Write) {
     "H:EdDSA:-:=:-:-",
   ];
   let payloads: [&[u8]; 6] = [b"payload", b"{\"a\":1}", b"a.b", b"", b"\x00\xff\x10bin", b"aGk"];
-  let keys = ["k:7:-", "k:7:EdDSA", "k:7:ES256"];
+  let keys = ["k:7:-", "k:7:EdDSA", "k:7:ES256", "k:7:eddsa", "k:7:Ed25519", "k:7:ECDH-ES+A256KW", "k:7:", "k:7:none"];
   // (2) decision table: compact
   for ps in prot_specs {
     let hj = hdr_json_bytes(ps);
@@ -426,6 +426,19 @@ pub fn gen(thorough: bool, seed: u64, out: &mut impl Write) {
           tok.extend_from_slice(&emb);
           tok.push(b'.');
           tok.extend_from_slice(&sig);
+          if sigkind == "good" && (placement == "attached" || placement == "detached") {
+            // base64 padding appended to one segment at a time
+            for (which, pad) in [(0usize, "="), (0, "=="), (1, "="), (2, "="), (2, "==")] {
+              let mut segs: Vec<Vec<u8>> = vec![seg0.clone().into_bytes(), emb.clone(), sig.clone()];
+              segs[which].extend_from_slice(pad.as_bytes());
+              let t = segs.join(&b'.');
+              writeln!(out, "C01 compact {} {} k:7:- {}", hex(&t), det.as_ref().map(|d| hex(d)).unwrap_or("~".into()), ptab(&[hj.clone()])).unwrap();
+              if std::str::from_utf8(&emb).is_ok() && !emb.iter().any(|b| *b == b'"' || *b == b'\\' || *b < 0x20) {
+                let plm = if placement == "detached" { "~".to_string() } else { hex(&segs[1]) };
+                writeln!(out, "C01 flat {} S/{}/_/{} {} k:7:- {}", plm, hex(&segs[0]), hex(&segs[2]), det.as_ref().map(|d| hex(d)).unwrap_or("~".into()), ptab(&[hj.clone()])).unwrap();
+              }
+            }
+          }
           for k in keys {
             if (placement == "both" || placement == "neither" || sigkind != "good") && k != "k:7:-" {
               continue;
@@ -509,6 +522,19 @@ pub fn gen(thorough: bool, seed: u64, out: &mut impl Write) {
       let mut t = tok.clone();
       t.remove(i);
       muts.push(t);
+      // insertions (padding characters, alphabet characters, separators) before position i
+      for v in [b'=', b'A', b'.', b' '] {
+        let mut t = tok.clone();
+        t.insert(i, v);
+        muts.push(t);
+      }
+      if i + 1 == tok.len() {
+        for suffix in [&b"="[..], &b"=="[..], &b"A"[..], &b"\n"[..]] {
+          let mut t = tok.clone();
+          t.extend_from_slice(suffix);
+          muts.push(t);
+        }
+      }
       for t in muts {
         if t == tok {
           continue;
